@@ -60,6 +60,9 @@ def main():
     assert os.path.realpath(pyerrors.__file__).startswith(os.path.realpath(os.environ.get("VSIM_REPO", "/repo"))), pyerrors.__file__
     mod = importlib.import_module("vsim.props." + prop)
     base = os.environ.get("VSIM_SCRATCH_BASE", "/dev/shm")
+    if not (os.path.isdir(base) and os.access(base, os.W_OK)):
+        import tempfile
+        base = tempfile.gettempdir()
     scratch = os.path.join(base, "vsim.%s.%s" % (os.environ.get("VSIM_MASTER", "x"), wid))
     shutil.rmtree(scratch, ignore_errors=True)
     os.makedirs(scratch)
